@@ -83,6 +83,8 @@ impl<D: DictionaryAccess> StatefulTokenizer<D> {
             Mode::B => InfoSubset::SPLIT_B,
             _ => InfoSubset::empty(),
         };
+        // splitting needs more than the split field itself (e.g. length of the split units)
+        self.subset = self.subset.normalize();
         std::mem::replace(&mut self.mode, mode)
     }
 
